@@ -9,7 +9,7 @@ from harness.props import c03
 RULE = ("every transform-capable class (single, cross, multi, all rotators) x alpha grid x PCA on/off (int / 'all') x rotation power 1..3 x "
         "normalized on/off x preprocessing flags x input structure (DataArray, Dataset, list, 2 sample dims, sample MultiIndex) x NaN rows/"
         "columns; white-noise as well as structured data so that rotations re-sort and flip signs; distinct by the configuration tuple")
-STRUCTS = ["DA", "DA", "DS", "LIST", "2s", "MI", "NaN", "2sNaN", "MINaN", "DSrev"]
+STRUCTS = ["DA", "DA", "DS", "LIST", "2s", "MI", "NaN", "2sNaN", "MINaN", "DSrev", "LAG"]
 
 
 def cases(seed, tier, broken=()):
@@ -82,6 +82,10 @@ def build(case):
     if zoo.takes_two(cls):
         if cls == "multi.CCA" and st in ("LIST",):
             return (X, Y), dim
+        if st == "LAG" and cls != "multi.CCA":
+            # a lagged analysis: the second field carries its OWN (later) sample labels; samples are paired by position and every field's
+            # scores / transform answers are labelled with that field's samples
+            return (X, Y.assign_coords(time=Y.time.values + 6)), dim
         return (shape(X), shape(Y)), dim
     return shape(X), dim
 
@@ -157,6 +161,12 @@ def run(case):
             continue
         valid = s.notnull().all("mode")
         sdims = [d for d in s.dims if d != "mode"]
+        if case["struct"] in ("DA", "LAG", "DS", "DSrev", "LIST"):
+            # complete data: the scores and the transform answer are labelled with exactly this field's samples, all of them valid
+            bad = [d for d in sdims if set(np.asarray(s[d].values).tolist()) != set(np.asarray(t[d].values).tolist())]
+            if bad or int(valid.sum()) != int(np.prod([s.sizes[d] for d in sdims])):
+                F.append(Finding("oracle", "transform_training_eq_scores", cc + "|labels", f"field {i}: scores carry labels {np.asarray(s[sdims[0]].values)[:4]}… ({int(valid.sum())} valid of {s.sizes[sdims[0]]}), transform answers {np.asarray(t[sdims[0]].values)[:4]}…"))
+                continue
         n_valid = int(valid.sum())
         tv = t.notnull().all("mode")
         if int(tv.sum()) < n_valid or s2.size == 0:
